@@ -22,6 +22,7 @@ package main
 //	c02.re <file|net> <T> <hexdoc>               => dec=ok|err|panic [enc=ok:<hex>|err|panic]   (decode, then encode again)
 //	c02.dec2 <T> <file|net> <hexdoc1> <hexdoc2>  => first=err | first=ok ok name=<hex> v=<V> left=<n> | first=ok err left=<n> | panic | hang
 //	                                                (both documents into ONE variable: the destination has a history)
+//	c02.decinto <T> <file|net> <V> <hexdoc>      => ok name=<hex> v=<V'> left=<n> | err left=<n> | panic | hang   (the variable holds V before)
 //	c02.fr <allow 0|1> <T> <hexdoc>              => ok n=<k> v=<V> | err | panic | hang      (packet.NBTField.ReadFrom, fresh v)
 //	c02.fw <val|ptr> <T> <V|nil>                 => ok n=<k> bytes=<hex> | err | panic       (packet.NBTField.WriteTo)
 
@@ -954,6 +955,34 @@ func c02Dec2(c *Ctx, tdesc, format string, doc1, doc2 []byte) {
 	c.Emit("c02.dec2", []string{tdesc, format, hx(doc1), hx(doc2)}, obs)
 }
 
+// c02DecInto decodes doc into a variable of type T that already holds the value vdesc (a reused holder: interfaces
+// holding typed nil pointers, …).
+func c02DecInto(c *Ctx, tdesc, format, vdesc string, doc []byte) {
+	t, _ := c02ParseType(tdesc)
+	var obs string
+	st := guardT(20*time.Second, func() {
+		v, rest := c02ParseValue(t, vdesc)
+		if rest != "" {
+			panic("c02: trailing text in value: " + rest)
+		}
+		br := bytes.NewReader(doc)
+		d := nbt.NewDecoder(br)
+		if format == "net" {
+			d.NetworkFormat(true)
+		}
+		name, err := d.Decode(v.Addr().Interface())
+		if err != nil {
+			obs = fmt.Sprintf("err left=%d", br.Len())
+		} else {
+			obs = fmt.Sprintf("ok name=%s v=%s left=%d", hx([]byte(name)), c02ShowStr(v), br.Len())
+		}
+	})
+	if st != "" {
+		obs = st
+	}
+	c.Emit("c02.decinto", []string{tdesc, format, vdesc, hx(doc)}, obs)
+}
+
 // c02FieldRead: packet.NBTField{V: &v}.ReadFrom on a fresh v of the type.
 func c02FieldRead(c *Ctx, allow bool, tdesc string, doc []byte) {
 	t, _ := c02ParseType(tdesc)
@@ -1058,6 +1087,11 @@ func replayC02(c *Ctx, op string, args []string) bool {
 		c02Re(c, args[0], args[1], unhx(args[2]))
 	case "c02.dec2":
 		c02Dec2(c, args[0], args[1], unhx(args[2]), unhx(args[3]))
+	case "c02.decinto":
+		if len(args) != 4 {
+			return false
+		}
+		c02DecInto(c, args[0], args[1], args[2], unhx(args[3]))
 	case "c02.fr":
 		doc := unhx(args[2])
 		if nbtDeclMax(doc, "net") > nbtAllocCap {
